@@ -671,3 +671,12 @@ type TIdxHighDesc struct {
 type TMapFF struct {
 	M map[float32]float64 `plenc:"1"`
 }
+
+// ---- shapes added after the sixth campaign
+
+// field index 0 is legal (its tag byte is the wire type alone)
+type TIdx0 struct {
+	A int    `plenc:"0"`
+	B string `plenc:"1"`
+	C *bool  `plenc:"2"`
+}
